@@ -210,18 +210,9 @@ func runC12(c *Ctx, r *Report, tier string) {
 				nRaw++
 				pred := p.Block().Preds[i]
 				last := pred.Instrs[len(pred.Instrs)-1]
-				target := func(x ssa.Instruction) bool { return x == last }
-				// edge-sensitive: the raw value flows along pred→phi block
-				q1 := &PathQ{c: c, Fn: wo, CutEdge: c.cutEdges(litIs("P6", false))}
-				_, reach1 := q1.Reach(entrySite(wo), 0, target)
-				if l, ok := c.edgeLitTo(pred, p.Block()); ok && l.Term == "P6" && !l.Pos {
-					reach1 = false
-				}
-				q2 := &PathQ{c: c, Fn: wo, CutEdge: c.cutEdges(anyLit(litIs("eq(24, P2)", false), litIs("call:isPrint(P4)", true)))}
-				_, reach2 := q2.Reach(entrySite(wo), 0, target)
-				if l, ok := c.edgeLitTo(pred, p.Block()); ok && ((l.Term == "eq(24, P2)" && !l.Pos) || (l.Term == "call:isPrint(P4)" && l.Pos)) {
-					reach2 = false
-				}
+				o := Origin{Val: e, At: last, Pred: pred, Succ: p.Block()}
+				reach1 := !c.reqAt(wo, o, litIs("P6", false))
+				reach2 := !c.reqAt(wo, o, anyLit(litIs("eq(24, P2)", false), litIs("call:isPrint(P4)", true)))
 				r.Check(!reach1 && !reach2, "QUOTE", won, "raw output only when not forced and (not a string or printable)", c.ipos(last), "REQ(¬forceQuote) ∧ REQ(kind ≠ String ∨ isPrint(value))", fmt.Sprintf("¬forceQuote necessary=%v (≠String ∨ isPrint) necessary=%v", !reach1, !reach2))
 			}
 		}
